@@ -84,16 +84,37 @@ enum Target {
     CallArg { name: String, arg: usize, recv_contains: Option<String> },
     Let(String),
     Field(String, String),
+    /// the receiver of the method call of this name
+    Recv(String),
+    /// the expression a `for <pattern> in ..` loop iterates over
+    ForIter(String),
+    /// the tail expression of the scoped block (component i of it when it is a tuple)
+    Tail(Option<usize>),
 }
 
-/// finds the target expression and the `let`s in scope before it
-struct Locator<'a> {
-    target: &'a Target,
+/// one step of a request's `scope`: narrows the search to the body of an arm / a `for` loop / a closure
+#[derive(Clone, Debug)]
+enum ScopeStep {
+    Arm(String),
+    For(String),
+    /// closure argument of the call of this name (optionally: whose first parameter is named so)
+    ClosureOf(String, Option<String>),
+}
+
+fn closure_body_stmts(c: &syn::ExprClosure) -> Vec<Stmt> {
+    match &*c.body {
+        Expr::Block(b) if b.label.is_none() => b.block.stmts.clone(),
+        Expr::Async(a) => a.block.stmts.clone(),
+        other => vec![Stmt::Expr(other.clone(), None)],
+    }
+}
+
+struct ScopeFinder<'a> {
+    step: &'a ScopeStep,
     scope: Vec<syn::Local>,
-    hits: Vec<(Vec<syn::Local>, Expr, Span)>,
+    hits: Vec<(Vec<syn::Local>, Vec<Stmt>, Span)>,
 }
-
-impl<'a, 'ast> Visit<'ast> for Locator<'a> {
+impl<'a, 'ast> Visit<'ast> for ScopeFinder<'a> {
     fn visit_block(&mut self, b: &'ast Block) {
         let n = self.scope.len();
         for s in &b.stmts {
@@ -104,7 +125,115 @@ impl<'a, 'ast> Visit<'ast> for Locator<'a> {
         }
         self.scope.truncate(n);
     }
+    fn visit_arm(&mut self, a: &'ast Arm) {
+        if let ScopeStep::Arm(want) = self.step {
+            if cfg_state(&a.attrs) != Some(false) && norm(&a.pat).starts_with(want.as_str()) {
+                let stmts = match &*a.body {
+                    Expr::Block(b) if b.label.is_none() => b.block.stmts.clone(),
+                    other => vec![Stmt::Expr(other.clone(), None)],
+                };
+                self.hits.push((self.scope.clone(), stmts, a.span()));
+                return;
+            }
+        }
+        syn::visit::visit_arm(self, a);
+    }
+    fn visit_expr_for_loop(&mut self, l: &'ast syn::ExprForLoop) {
+        if let ScopeStep::For(want) = self.step {
+            if norm(&l.pat) == *want {
+                self.hits.push((self.scope.clone(), l.body.stmts.clone(), l.span()));
+                return;
+            }
+        }
+        syn::visit::visit_expr_for_loop(self, l);
+    }
+    fn visit_expr(&mut self, e: &'ast Expr) {
+        if let ScopeStep::ClosureOf(name, param) = self.step {
+            if call_name(e).as_deref() == Some(name.as_str()) {
+                let args: Vec<&Expr> = match e {
+                    Expr::MethodCall(m) => m.args.iter().collect(),
+                    Expr::Call(c) => c.args.iter().collect(),
+                    _ => vec![],
+                };
+                for a in args {
+                    if let Expr::Closure(c) = a {
+                        let first = c.inputs.first().map(|p| match p {
+                            Pat::Type(pt) => norm(&pt.pat),
+                            p => norm(p),
+                        });
+                        let ok = match param {
+                            None => true,
+                            Some(want) => first.as_deref().map(|f| f.trim_start_matches("mut") == want.as_str()).unwrap_or(false),
+                        };
+                        if ok {
+                            self.hits.push((self.scope.clone(), closure_body_stmts(c), c.span()));
+                        }
+                    }
+                }
+            }
+        }
+        syn::visit::visit_expr(self, e);
+    }
+    fn visit_item(&mut self, _: &'ast Item) {}
+}
+
+/// finds the target expression and the `let`s in scope before it
+struct Locator<'a> {
+    target: &'a Target,
+    scope: Vec<syn::Local>,
+    hits: Vec<(Vec<syn::Local>, Expr, Span)>,
+    /// only hits in direct statements of the outermost block count
+    top: bool,
+    depth: usize,
+}
+
+impl<'a> Locator<'a> {
+    fn counts(&self) -> bool {
+        !self.top || self.depth <= 1
+    }
+}
+
+impl<'a, 'ast> Visit<'ast> for Locator<'a> {
+    fn visit_block(&mut self, b: &'ast Block) {
+        let n = self.scope.len();
+        self.depth += 1;
+        for s in &b.stmts {
+            self.visit_stmt(s);
+            if let Stmt::Local(l) = s {
+                self.scope.push(l.clone());
+            }
+        }
+        if self.depth == 1 {
+            if let Target::Tail(comp) = self.target {
+                if let Some(Stmt::Expr(e, None)) = b.stmts.last() {
+                    let picked = match (comp, e) {
+                        (Some(i), Expr::Tuple(t)) => t.elems.iter().nth(*i).cloned(),
+                        (Some(_), _) => None,
+                        (None, e) => Some(e.clone()),
+                    };
+                    if let Some(x) = picked {
+                        // (the `let`s of the whole block are in scope of its tail)
+                        self.hits.push((self.scope.clone(), x, e.span()));
+                    }
+                }
+            }
+        }
+        self.depth -= 1;
+        self.scope.truncate(n);
+    }
+    fn visit_expr_for_loop(&mut self, l: &'ast syn::ExprForLoop) {
+        if let Target::ForIter(p) = self.target {
+            if norm(&l.pat) == *p && self.counts() {
+                self.hits.push((self.scope.clone(), (*l.expr).clone(), l.span()));
+            }
+        }
+        syn::visit::visit_expr_for_loop(self, l);
+    }
     fn visit_local(&mut self, l: &'ast syn::Local) {
+        if !self.counts() {
+            syn::visit::visit_local(self, l);
+            return;
+        }
         if let Target::Let(name) = self.target {
             let mut ids = Vec::new();
             pat_idents(&l.pat, &mut ids);
@@ -117,7 +246,19 @@ impl<'a, 'ast> Visit<'ast> for Locator<'a> {
         syn::visit::visit_local(self, l);
     }
     fn visit_expr(&mut self, e: &'ast Expr) {
+        if !self.counts() {
+            syn::visit::visit_expr(self, e);
+            return;
+        }
         match self.target {
+            Target::Recv(name) => {
+                if let Expr::MethodCall(m) = e {
+                    if m.method == name.as_str() {
+                        self.hits.push((self.scope.clone(), (*m.receiver).clone(), e.span()));
+                    }
+                }
+            }
+            Target::ForIter(_) | Target::Tail(_) => {}
             Target::CallArg { name, arg, recv_contains } => {
                 if call_name(e).as_deref() == Some(name.as_str()) {
                     let (args, recv): (Vec<&Expr>, String) = match e {
@@ -261,6 +402,40 @@ impl<'u> Tr<'u> {
         }
     }
 
+    /// narrows a function body by the request's `scope` steps -> (`let`s in scope before the block, its statements,
+    /// a description for the header)
+    fn resolve_scope(&self, rq: &Request, body: &Block, sp: Span) -> R<(Vec<syn::Local>, Vec<Stmt>, String)> {
+        let mut cur: (Vec<syn::Local>, Vec<Stmt>) = (Vec::new(), body.stmts.clone());
+        let mut text = String::new();
+        for st in &rq.scope {
+            let step = if let Some(a) = st.get("arm").and_then(|v| v.as_str()) {
+                ScopeStep::Arm(a.replace(' ', ""))
+            } else if let Some(f) = st.get("for").and_then(|v| v.as_str()) {
+                ScopeStep::For(f.replace(' ', ""))
+            } else if let Some(c) = st.get("closure_of").and_then(|v| v.as_str()) {
+                ScopeStep::ClosureOf(c.to_owned(), st.get("param").and_then(|v| v.as_str()).map(|s| s.to_owned()))
+            } else {
+                return self.err(sp, "scope step must have `arm`, `for` or `closure_of`");
+            };
+            let blk = Block { brace_token: Default::default(), stmts: cur.1.clone() };
+            let mut f = ScopeFinder { step: &step, scope: cur.0.clone(), hits: Vec::new() };
+            f.visit_block(&blk);
+            let d = match &step {
+                ScopeStep::Arm(a) => format!("the arm `{a}..`"),
+                ScopeStep::For(p) => format!("the body of `for {p}`"),
+                ScopeStep::ClosureOf(c, None) => format!("the closure handed to `{c}`"),
+                ScopeStep::ClosureOf(c, Some(pn)) => format!("the closure `|{pn}| ..` handed to `{c}`"),
+            };
+            if f.hits.len() != 1 {
+                return self.err(sp, format!("`{}`: {d} was found {} times (exactly one is needed)", rq.item, f.hits.len()));
+            }
+            let (sc, stmts, _) = f.hits.pop().unwrap();
+            cur = (sc, stmts);
+            text += &format!(" in {d}");
+        }
+        Ok((cur.0, cur.1, text))
+    }
+
     // ------------------------------------------------------------------------------ local_value
 
     fn local_value(&mut self, rq: &Request) -> R<String> {
@@ -285,16 +460,29 @@ impl<'u> Tr<'u> {
                 (Some(a), Some(b)) => Target::Field(a.to_owned(), b.to_owned()),
                 _ => return self.err(sp, "local_value: `of.field` must be [Struct, field]"),
             }
+        } else if let Some(r) = of.get("recv_of").and_then(|v| v.as_str()) {
+            Target::Recv(r.to_owned())
+        } else if let Some(r) = of.get("for_iter").and_then(|v| v.as_str()) {
+            Target::ForIter(r.replace(' ', ""))
+        } else if of.get("tail").is_some() {
+            Target::Tail(of.get("component").and_then(|v| v.as_u64()).map(|c| c as usize))
         } else {
-            return self.err(sp, "local_value: `of` must have `call`, `let` or `field`");
+            return self.err(sp, "local_value: `of` must have `call`, `let`, `field`, `recv_of`, `for_iter` or `tail`");
         };
         let what = match &target {
             Target::CallArg { name, arg, .. } => format!("argument {arg} of the call of `{name}`"),
             Target::Let(l) => format!("the value of `let {l}`"),
             Target::Field(s, f) => format!("the field `{f}` of the `{s} {{ .. }}` literal"),
+            Target::Recv(m) => format!("the receiver of the call of `{m}`"),
+            Target::ForIter(p) => format!("what `for {p} in ..` iterates over"),
+            Target::Tail(None) => "the tail expression".to_owned(),
+            Target::Tail(Some(i)) => format!("component {i} of the tail expression"),
         };
-        let mut loc = Locator { target: &target, scope: Vec::new(), hits: Vec::new() };
-        loc.visit_block(body);
+        let (outer, scoped_stmts, scope_text) = self.resolve_scope(rq, body, sig.ident.span())?;
+        let what = format!("{what}{scope_text}");
+        let scoped_block = Block { brace_token: Default::default(), stmts: scoped_stmts };
+        let mut loc = Locator { target: &target, scope: outer, hits: Vec::new(), top: rq.top, depth: 0 };
+        loc.visit_block(&scoped_block);
         if loc.hits.len() != 1 {
             return self.err(
                 sig.ident.span(),
@@ -303,12 +491,91 @@ impl<'u> Tr<'u> {
         }
         let (scope, expr, at) = loc.hits.pop().unwrap();
         // the declared free variables
-        let mut env = Env { self_ty: self_ty.clone(), ..Env::default() };
+        let mut env = Env { self_ty: self_ty.clone(), allow_sub: rq.allow_sub, ignore_assign: rq.ignore_assign.clone(), ..Env::default() };
         let mut binders = Vec::new();
         self.declare_params(rq, self_ty.as_deref(), &mut env, &mut binders)?;
         self.cur_file = self.u.files[file].clone();
         let declared: BTreeSet<String> = rq.params.iter().map(|(t, _)| t.replace(' ', "")).collect();
         let used = needed_lets(&scope, idents_of(&expr), &declared);
+        // a `let mut` the value depends on must not be modified between its declaration and its use, except by the
+        // methods the request names (which are then declared omissions)
+        {
+            fn mut_idents(p: &Pat, out: &mut Vec<String>) {
+                match p {
+                    Pat::Ident(i) if i.mutability.is_some() => out.push(i.ident.to_string()),
+                    Pat::Type(t) => mut_idents(&t.pat, out),
+                    Pat::Tuple(t) => t.elems.iter().for_each(|e| mut_idents(e, out)),
+                    Pat::Paren(r) => mut_idents(&r.pat, out),
+                    _ => {}
+                }
+            }
+            let mut names = Vec::new();
+            for l in &used {
+                mut_idents(&l.pat, &mut names);
+            }
+            names.retain(|n| !rq.ignore_assign.contains(n));
+            struct Mods<'m> {
+                names: &'m [String],
+                found: Vec<(String, String, Span)>,
+            }
+            impl<'m, 'ast> Visit<'ast> for Mods<'m> {
+                fn visit_stmt(&mut self, s: &'ast Stmt) {
+                    if let Stmt::Expr(e, _) = s {
+                        let mut cur = strip_wrappers(e);
+                        let mut methods = Vec::new();
+                        while let Expr::MethodCall(m) = cur {
+                            methods.push(m.method.to_string());
+                            cur = strip_wrappers(&m.receiver);
+                        }
+                        if let Expr::Path(p) = cur {
+                            if let Some(id) = p.path.get_ident() {
+                                if self.names.iter().any(|n| id == n) {
+                                    for m in methods {
+                                        self.found.push((id.to_string(), m, e.span()));
+                                    }
+                                }
+                            }
+                        }
+                    }
+                    syn::visit::visit_stmt(self, s);
+                }
+                fn visit_expr(&mut self, e: &'ast Expr) {
+                    let target = match e {
+                        Expr::Assign(a) => Some(&*a.left),
+                        Expr::Binary(b) if matches!(b.op, BinOp::AddAssign(_) | BinOp::SubAssign(_) | BinOp::MulAssign(_)) => Some(&*b.left),
+                        _ => None,
+                    };
+                    if let Some(Expr::Path(p)) = target {
+                        if let Some(id) = p.path.get_ident() {
+                            if self.names.iter().any(|n| id == n) {
+                                self.found.push((id.to_string(), "=".into(), e.span()));
+                            }
+                        }
+                    }
+                    syn::visit::visit_expr(self, e);
+                }
+                fn visit_item(&mut self, _: &'ast Item) {}
+            }
+            let mut mods = Mods { names: &names, found: vec![] };
+            mods.visit_block(body);
+            for (n, m, at) in mods.found {
+                if m == "=" {
+                    return self.err(at, format!("`{n}`, which {what} depends on, is assigned again after its `let`"));
+                }
+                if self.spec.ignore_methods.iter().any(|i| *i == m) {
+                    continue;
+                }
+                if rq.inplace.iter().any(|i| *i == m) {
+                    self.notes.push(format!(
+                        "{name}: `{n}` is also modified in place by `{m}` ({}:{}), which is not translated: the generated value is the one before that call",
+                        self.u.files[file],
+                        at.start().line
+                    ));
+                } else {
+                    return self.err(at, format!("`{n}`, which {what} depends on, is modified in place by `{m}` (not listed under `inplace`)"));
+                }
+            }
+        }
         let mut stmts: Vec<Stmt> = used.into_iter().map(Stmt::Local).collect();
         stmts.push(Stmt::Expr(expr.clone(), None));
         let hint = match &rq.ty {
@@ -1299,5 +1566,347 @@ fn chain_root(e: &Expr) -> Option<&Expr> {
         Expr::Reference(r) => chain_root(&r.expr),
         Expr::Path(_) => Some(e),
         _ => None,
+    }
+}
+
+// ------------------------------------------------------------- effect_list / closure_value / loop_body
+
+fn contains_call_named(e: &Expr, name: &str) -> bool {
+    struct V<'n>(&'n str, bool);
+    impl<'n, 'ast> Visit<'ast> for V<'n> {
+        fn visit_expr(&mut self, e: &'ast Expr) {
+            if call_name(e).as_deref() == Some(self.0) {
+                self.1 = true;
+            }
+            syn::visit::visit_expr(self, e);
+        }
+        fn visit_item(&mut self, _: &'ast Item) {}
+    }
+    let mut v = V(name, false);
+    v.visit_expr(e);
+    v.1
+}
+
+impl<'u> Tr<'u> {
+    /// the list of the values handed to the calls of `callee` a block makes, in order, each under the condition it is
+    /// made
+    fn effects_block(&mut self, stmts: &[Stmt], env: &Env, callee: &str, ety: &mut Option<Ty>) -> R<G> {
+        let (s, rest) = match stmts.split_first() {
+            None => return Ok(raw("nil")),
+            Some(x) => x,
+        };
+        match s {
+            Stmt::Local(l) => {
+                let (pat, annot) = match &l.pat {
+                    Pat::Type(pt) => (&*pt.pat, Some(&*pt.ty)),
+                    p => (p, None),
+                };
+                let init = match &l.init {
+                    Some(i) => &*i.expr,
+                    None => return self.effects_block(rest, env, callee, ety),
+                };
+                if contains_call_named(init, callee) {
+                    // `let total = self.broadcast_request(..);`: the call is made here
+                    let here = self.effects_expr(init, env, callee, ety)?;
+                    let mut env2 = env.clone();
+                    let _ = self.poison_pattern(pat, &mut env2, "the value of the recorded call", l.span());
+                    let after = self.effects_block(rest, &env2, callee, ety)?;
+                    return Ok(app("List.app", vec![here, after]));
+                }
+                let hint = match annot {
+                    Some(t) => self.ty(t, env.self_ty.as_deref()).ok(),
+                    None => None,
+                };
+                let saved_notes = self.notes.len();
+                let mut env2 = env.clone();
+                match self.expr(init, env, hint.as_ref()) {
+                    Ok((g, t)) => {
+                        let t = hint.unwrap_or(t);
+                        let b = match pat {
+                            Pat::Ident(_) | Pat::Wild(_) => self.pattern(pat, &t, &mut env2).ok(),
+                            Pat::Tuple(_) => self.pattern(pat, &t, &mut env2).ok().map(|p| format!("'{p}")),
+                            _ => None,
+                        };
+                        match b {
+                            Some(b) => {
+                                let after = self.effects_block(rest, &env2, callee, ety)?;
+                                Ok(match &after {
+                                    G::Raw(r) if r == "nil" => after,
+                                    _ => G::Let(b, Box::new(g), Box::new(after)),
+                                })
+                            }
+                            None => {
+                                let mut env3 = env.clone();
+                                let _ = self.poison_pattern(pat, &mut env3, "unsupported pattern", l.span());
+                                self.effects_block(rest, &env3, callee, ety)
+                            }
+                        }
+                    }
+                    Err(e) => {
+                        self.notes.truncate(saved_notes);
+                        let why = format!("{} (line {})", e.msg, e.line);
+                        let _ = self.poison_pattern(pat, &mut env2, &why, l.span());
+                        self.effects_block(rest, &env2, callee, ety)
+                    }
+                }
+            }
+            Stmt::Expr(e, _) => {
+                let here = self.effects_expr(e, env, callee, ety)?;
+                let after = self.effects_block(rest, env, callee, ety)?;
+                Ok(match (&here, &after) {
+                    (G::Raw(a), _) if a == "nil" => after,
+                    (_, G::Raw(b)) if b == "nil" => here,
+                    _ => app("List.app", vec![here, after]),
+                })
+            }
+            Stmt::Macro(_) | Stmt::Item(_) => self.effects_block(rest, env, callee, ety),
+        }
+    }
+
+    fn effects_expr(&mut self, e: &Expr, env: &Env, callee: &str, ety: &mut Option<Ty>) -> R<G> {
+        if !contains_call_named(e, callee) {
+            return Ok(raw("nil"));
+        }
+        match e {
+            Expr::Paren(p) => self.effects_expr(&p.expr, env, callee, ety),
+            Expr::Group(p) => self.effects_expr(&p.expr, env, callee, ety),
+            Expr::Try(t) => self.effects_expr(&t.expr, env, callee, ety),
+            Expr::Await(a) => self.effects_expr(&a.base, env, callee, ety),
+            Expr::Reference(r) => self.effects_expr(&r.expr, env, callee, ety),
+            Expr::Block(b) if b.label.is_none() => self.effects_block(&b.block.stmts, env, callee, ety),
+            Expr::MethodCall(_) | Expr::Call(_) if call_name(e).as_deref() == Some(callee) => {
+                let args: Vec<&Expr> = match e {
+                    Expr::MethodCall(m) => m.args.iter().collect(),
+                    Expr::Call(c) => c.args.iter().collect(),
+                    _ => vec![],
+                };
+                if args.len() != 1 {
+                    return self.err(e.span(), format!("`{callee}` is called with {} arguments (one is needed)", args.len()));
+                }
+                if contains_call_named(args[0], callee) {
+                    return self.err(e.span(), format!("nested calls of `{callee}`"));
+                }
+                let (g, t) = self.expr(args[0], env, ety.as_ref())?;
+                if ety.is_none() {
+                    *ety = Some(t);
+                }
+                Ok(raw(format!("(cons {} nil)", g.atom(4))))
+            }
+            Expr::If(i) => {
+                let mut ety2 = ety.clone();
+                let cal = callee.to_owned();
+                let etp: *mut Option<Ty> = &mut ety2;
+                let r = self.build_if(i, env, &mut |tr, stmts, env2| {
+                    // SAFETY: ety2 outlives the closure and is not otherwise used while it runs
+                    let et = unsafe { &mut *etp };
+                    let g = tr.effects_block(stmts, env2, &cal, et)?;
+                    Ok((g, Ty::Unit))
+                })?;
+                *ety = ety2;
+                Ok(r.0)
+            }
+            Expr::Match(m) => {
+                let mut ety2 = ety.clone();
+                let cal = callee.to_owned();
+                let etp: *mut Option<Ty> = &mut ety2;
+                let r = self.build_match(m, env, &mut |tr, body, env2| {
+                    let et = unsafe { &mut *etp };
+                    let g = match body {
+                        Expr::Block(b) if b.label.is_none() => tr.effects_block(&b.block.stmts, env2, &cal, et)?,
+                        other => tr.effects_expr(other, env2, &cal, et)?,
+                    };
+                    Ok((g, Ty::Unit))
+                })?;
+                *ety = ety2;
+                Ok(r.0)
+            }
+            _ => self.err(e.span(), format!("`{callee}` is called in a position the effect list does not follow (loop, closure, argument)")),
+        }
+    }
+
+    fn effect_list(&mut self, rq: &Request) -> R<String> {
+        let sp = Span::call_site();
+        let name = self.request_name(rq)?;
+        let (file, sig, body, self_ty) = self.find_fn(&rq.item, sp)?;
+        self.cur_file = self.u.files[file].clone();
+        let callee = match &rq.call {
+            Some(c) => c.clone(),
+            None => return self.err(sp, "effect_list request without `call`"),
+        };
+        let (_outer, stmts, scope_text) = self.resolve_scope(rq, body, sig.ident.span())?;
+        let mut env = Env { self_ty: self_ty.clone(), ..Env::default() };
+        let mut binders = Vec::new();
+        self.declare_params(rq, self_ty.as_deref(), &mut env, &mut binders)?;
+        self.cur_file = self.u.files[file].clone();
+        let mut ety: Option<Ty> = match &rq.ty {
+            Some(t) => {
+                let ty: Type = match syn::parse_str(t) {
+                    Ok(t) => t,
+                    Err(e) => return self.err(sp, format!("type `{t}`: {e}")),
+                };
+                let r = self.ty(&ty, self_ty.as_deref());
+                self.cur_file = self.u.files[file].clone();
+                Some(r?)
+            }
+            None => None,
+        };
+        let g = self.effects_block(&stmts, &env, &callee, &mut ety)?;
+        let ety = match ety {
+            Some(t) => t,
+            None => return self.err(sig.ident.span(), format!("no call of `{callee}`{scope_text} of `{}`", rq.item)),
+        };
+        let text = format!("Definition {name} {} : (list {}) :=\n  {}.", binders.join(" "), ety.coq(), g.render(2));
+        let mut hashed = proc_macro2::TokenStream::new();
+        for s in &stmts {
+            hashed.extend(s.to_token_stream());
+        }
+        let origin = format!(
+            "{}:{} values handed to `{callee}`{scope_text} of fn {} {}",
+            self.u.files[file],
+            stmts.first().map(|s| s.span().start().line).unwrap_or(0),
+            rq.item,
+            tok_hash(hashed)
+        );
+        self.notes.push(format!(
+            "{name} is the ordered list of the values handed to `{callee}`{scope_text} of {}, each under the condition the call is made, as a function of {}; every other statement is not translated",
+            rq.item,
+            rq.params.iter().map(|(a, _)| format!("`{a}`")).collect::<Vec<_>>().join(", ")
+        ));
+        self.emit(&name, text, origin);
+        Ok(name)
+    }
+
+    /// the value of a closure (through `async move {{ .. }}`), with the events it sends on the way to each exit
+    fn closure_value(&mut self, rq: &Request) -> R<String> {
+        let sp = Span::call_site();
+        let name = self.request_name(rq)?;
+        let (file, sig, body, self_ty) = self.find_fn(&rq.item, sp)?;
+        self.cur_file = self.u.files[file].clone();
+        if !matches!(rq.scope.last(), Some(v) if v.get("closure_of").is_some()) {
+            return self.err(sp, "closure_value: the last `scope` step must be `closure_of`");
+        }
+        let (_outer, stmts, scope_text) = self.resolve_scope(rq, body, sig.ident.span())?;
+        let hint = match &rq.ty {
+            Some(t) => {
+                let ty: Type = match syn::parse_str(t) {
+                    Ok(t) => t,
+                    Err(e) => return self.err(sp, format!("type `{t}`: {e}")),
+                };
+                let r = self.ty(&ty, self_ty.as_deref());
+                self.cur_file = self.u.files[file].clone();
+                r?
+            }
+            None => return self.err(sp, "closure_value request without `ty` (the type of the closure's value)"),
+        };
+        let mut env = Env {
+            self_ty: self_ty.clone(),
+            ret: Some(hint.clone()),
+            events_enum: Some(rq.events.clone().unwrap_or_default()),
+            ..Env::default()
+        };
+        let mut binders = Vec::new();
+        self.declare_params(rq, self_ty.as_deref(), &mut env, &mut binders)?;
+        self.cur_file = self.u.files[file].clone();
+        let (g, t) = self.block(&stmts, &env, &K::Value(Some(hint.clone())))?;
+        let t = if t == Ty::Never { Ty::Tuple(vec![Ty::List(Box::new(Ty::Str)), hint.clone()]) } else { t };
+        let text = format!("Definition {name} {} : {} :=\n  {}.", binders.join(" "), t.coq(), g.render(2));
+        let mut hashed = proc_macro2::TokenStream::new();
+        for s in &stmts {
+            hashed.extend(s.to_token_stream());
+        }
+        let origin = format!(
+            "{}:{} value and events of{scope_text} of fn {} {}",
+            self.u.files[file],
+            stmts.first().map(|s| s.span().start().line).unwrap_or(0),
+            rq.item,
+            tok_hash(hashed)
+        );
+        self.notes.push(format!(
+            "{name} is, for{scope_text} of {}: (the {} variants it sends before it returns, the value it returns) as a function of {}; `async move {{ .. }}` is read as its body",
+            rq.item,
+            rq.events.clone().unwrap_or_default(),
+            rq.params.iter().map(|(a, _)| format!("`{a}`")).collect::<Vec<_>>().join(", ")
+        ));
+        self.emit(&name, text, origin);
+        Ok(name)
+    }
+
+    /// the body of `for <in_loop> in ..` as a transformer of the mutable locals declared before the loop
+    fn loop_body(&mut self, rq: &Request) -> R<String> {
+        let sp = Span::call_site();
+        let name = self.request_name(rq)?;
+        let (file, sig, body, self_ty) = self.find_fn(&rq.item, sp)?;
+        self.cur_file = self.u.files[file].clone();
+        let pat = match &rq.in_loop {
+            Some(p) => p.replace(' ', ""),
+            None => return self.err(sp, "loop_body request without `in_loop`"),
+        };
+        struct Fors(Vec<syn::ExprForLoop>, String);
+        impl<'ast> Visit<'ast> for Fors {
+            fn visit_expr_for_loop(&mut self, l: &'ast syn::ExprForLoop) {
+                if norm(&l.pat) == self.1 {
+                    self.0.push(l.clone());
+                }
+                syn::visit::visit_expr_for_loop(self, l);
+            }
+            fn visit_item(&mut self, _: &'ast Item) {}
+        }
+        let mut fs = Fors(vec![], pat.clone());
+        fs.visit_block(body);
+        if fs.0.len() != 1 {
+            return self.err(sig.ident.span(), format!("`{}` has {} loops `for {pat} in ..` (exactly one is needed)", rq.item, fs.0.len()));
+        }
+        let stmts = fs.0.pop().unwrap().body.stmts;
+        let mut env = Env { self_ty: self_ty.clone(), loop_body: true, ..Env::default() };
+        let mut binders = Vec::new();
+        self.declare_params(rq, self_ty.as_deref(), &mut env, &mut binders)?;
+        let mut names = Vec::new();
+        let mut tys = Vec::new();
+        for (n, tyname) in &rq.state {
+            let ty: Type = match syn::parse_str(tyname) {
+                Ok(t) => t,
+                Err(e) => return self.err(sp, format!("state type `{tyname}`: {e}")),
+            };
+            let t = self.ty(&ty, self_ty.as_deref())?;
+            let cn = local_name(n);
+            binders.push(format!("({cn} : {})", t.coq()));
+            env.binds.push(Bind { rust: n.clone(), coq: cn.clone(), ty: t.clone(), poisoned: None });
+            env.vars.push((n.clone(), cn.clone(), t.clone()));
+            names.push(cn);
+            tys.push(t);
+        }
+        if names.is_empty() {
+            return self.err(sp, "loop_body request without `state`");
+        }
+        self.cur_file = self.u.files[file].clone();
+        let saved_opaque = std::mem::take(&mut self.opaque);
+        let r = self.block(&stmts, &env, &K::Vars(names.clone()));
+        let r = r.map(|x| {
+            self.opaque_binders(&mut binders);
+            x
+        });
+        self.opaque = saved_opaque;
+        let (g, _) = r?;
+        let rt = if tys.len() == 1 { tys[0].clone() } else { Ty::Tuple(tys) };
+        let text = format!("Definition {name} {} : {} :=\n  {}.", binders.join(" "), rt.coq(), g.render(2));
+        let mut hashed = proc_macro2::TokenStream::new();
+        for s in &stmts {
+            hashed.extend(s.to_token_stream());
+        }
+        let origin = format!(
+            "{}:{} the body of `for {pat}` of fn {} {}",
+            self.u.files[file],
+            stmts.first().map(|s| s.span().start().line).unwrap_or(0),
+            rq.item,
+            tok_hash(hashed)
+        );
+        self.notes.push(format!(
+            "{name} is one turn of the loop `for {pat} in ..` of {}: the new values of {} as a function of their old values and of {}; `continue` ends the turn",
+            rq.item,
+            rq.state.iter().map(|(a, _)| format!("`{a}`")).collect::<Vec<_>>().join(", "),
+            rq.params.iter().map(|(a, _)| format!("`{a}`")).collect::<Vec<_>>().join(", ")
+        ));
+        self.emit(&name, text, origin);
+        Ok(name)
     }
 }
